@@ -298,12 +298,16 @@ def run(ctx):
     for _ in range(ctx.budget(6000, 40000)):
         if not ctx.alive():
             break
+        if rng.random() < 0.03:
+            from .. import noise
+            noise.burst(ctx, rng, exclude=('versions', 'discovery'))
         history(ctx, rng)
     for _ in range(ctx.budget(1500, 10000)):
         two_objects(ctx, rng)
     for _ in range(ctx.budget(150, 1500)):
         many_later_errors(ctx, rng)
     ctx.need("many different later errors on one latched object", 100)
+    ctx.need("history: after calls to other library functions", 100)
     causes = ctx.extra.pop("_causes", set())
     pairs = ctx.extra.pop("_pairs", set())
     transitions = ctx.extra.pop("_transitions", set())
